@@ -27,6 +27,10 @@ def helper_level(rep, rng, quick):
     from FDApy.misc.utils import _integrate, _integration_weights, _inner_product
     run = C.CoqRun("C08", IMPORTS)
     todo = []
+    fd.dtype_monitor(rep, rng, {
+        "norm()": lambda d: d.norm(), "norm(squared, simpson)": lambda d: d.norm(squared=True, method_integration="simpson"),
+        "inner_product(noise_variance=0)": lambda d: d.inner_product(noise_variance=0),
+        "inner_product(simpson)": lambda d: d.inner_product(method_integration="simpson", noise_variance=0)}, "L2 geometry")
     n_cases = 40 if quick else 600
     for i in range(n_cases):
         kind = fd.GRID_KINDS[i % len(fd.GRID_KINDS)]
